@@ -10,6 +10,7 @@ import (
 	"context"
 	"encoding/hex"
 	"fmt"
+	"io"
 	"strings"
 	"sync"
 
@@ -439,6 +440,156 @@ func typeAt(log []*lab.Exchange, i int) int {
 	return log[i].MsgType
 }
 
+// ---------------- the authenticated client deviates from the message order (inside the tunnel) ----------------
+
+// deviant wraps the real TO2 client's transport: the client holds the session keys, so what it sends is accepted by
+// the tunnel; the deviation is in WHICH messages it sends.
+type deviant struct {
+	inner fdo.Transport
+	mode  string
+	n68   int
+	log   []string
+	sess  kex.Session
+	last  map[uint8]any
+}
+
+func (d *deviant) Send(ctx context.Context, msgType uint8, msg any, sess kex.Session) (uint8, io.ReadCloser, error) {
+	d.sess = sess
+	if d.last == nil {
+		d.last = map[uint8]any{}
+	}
+	d.last[msgType] = msg
+	fab := func(typ uint8, v any) (uint8, io.ReadCloser, error) {
+		b, _ := cbor.Marshal(v)
+		d.log = append(d.log, fmt.Sprintf("%d:not-sent", msgType))
+		return typ, io.NopCloser(bytes.NewReader(b)), nil
+	}
+	switch {
+	case d.mode == "skip-66" && msgType == 66:
+		return fab(67, fdo.XOwnerServiceInfoReady{})
+	case d.mode == "skip-service-info" && msgType == 68:
+		return fab(69, fdo.XOwnerServiceInfo{IsDone: true})
+	case d.mode == "skip-66-and-service-info" && msgType == 66:
+		return fab(67, fdo.XOwnerServiceInfoReady{})
+	case d.mode == "skip-66-and-service-info" && msgType == 68:
+		return fab(69, fdo.XOwnerServiceInfo{IsDone: true})
+	case d.mode == "skip-modules" && msgType == 68 && d.n68 > 0:
+		// devmod has been delivered and the owner's module has started; the client leaves before it finished
+		return fab(69, fdo.XOwnerServiceInfo{IsDone: true})
+	}
+	typ, rc, err := d.inner.Send(ctx, msgType, msg, sess)
+	d.log = append(d.log, fmt.Sprintf("%d->%d", msgType, typ))
+	if err == nil && typ == 69 {
+		b, _ := io.ReadAll(rc)
+		_ = rc.Close()
+		var o fdo.XOwnerServiceInfo
+		if cbor.Unmarshal(b, &o) == nil && len(o.ServiceInfo) > 0 {
+			d.n68++
+		}
+		rc = io.NopCloser(bytes.NewReader(b))
+	}
+	return typ, rc, err
+}
+
+// again sends one more message of the given type in the same session after the client has returned.
+func (d *deviant) again(msgType uint8) (uint8, error) {
+	msg, ok := d.last[msgType]
+	if !ok || d.sess == nil {
+		return 0, fmt.Errorf("nothing to resend")
+	}
+	typ, rc, err := d.inner.Send(context.Background(), msgType, msg, d.sess)
+	if rc != nil {
+		_, _ = io.Copy(io.Discard, rc)
+		_ = rc.Close()
+	}
+	d.log = append(d.log, fmt.Sprintf("again %d->%d", msgType, typ))
+	return typ, err
+}
+
+func deviantClients(k keys.Kind) {
+	ctx := context.Background()
+	for _, mode := range []string{"honest", "skip-66", "skip-service-info", "skip-66-and-service-info", "skip-modules", "done-twice", "info-after-done", "ready-after-done", "prove-after-done"} {
+		for _, reuse := range []bool{false, true} {
+			rec := &lab.Recorder{}
+			w := lab.NewWorld(k, protocol.X509KeyEnc)
+			if _, err := w.Manufacture(ctx, 1); err != nil {
+				r.Fatal("manufacture: %v", err)
+			}
+			w.Owner.Reuse = reuse
+			w.Owner.Mem.OwnerModules = func(context.Context, protocol.GUID, serviceinfo.Devmod, []string) []lab.NamedModule {
+				return []lab.NamedModule{{Name: "vmod", Mod: &lab.OwnerScript{Name: "vmod", Rec: rec, Rounds: [][]lab.Msg{{{Name: "m", Body: []byte{1}}}}}}}
+			}
+			cfg := w.Dev.TO2Config(lab.DefaultSuite(k), kex.A128GcmCipher)
+			cfg.AllowCredentialReuse = reuse
+			cfg.DeviceModules = map[string]serviceinfo.DeviceModule{"vmod": &lab.DeviceRec{Name: "vmod", Rec: rec}}
+			d := &deviant{inner: lab.NewWire(w.Owner).Transport(), mode: mode}
+			var err error
+			if p := probe.Call(func() { _, err = fdo.TO2(ctx, d, nil, cfg) }); p != nil {
+				r.Violation(p.Key(), fmt.Sprintf("deviant client %s: panic %s in %s", mode, p.Value, p.Frame), map[string]any{"mode": mode})
+				continue
+			}
+			replBefore, callsBefore := countRepl(w.Owner.Mem), rec.Count("owner", "")
+			var againType uint8
+			var againErr error
+			switch mode {
+			case "done-twice":
+				againType, againErr = d.again(70)
+			case "info-after-done":
+				againType, againErr = d.again(68)
+			case "ready-after-done":
+				againType, againErr = d.again(66)
+			case "prove-after-done":
+				againType, againErr = d.again(64)
+			}
+			repl, calls := countRepl(w.Owner.Mem), rec.Count("owner", "")
+			r.Evaluations.Add(1)
+			r.States.Add(1)
+			r.Transitions.Add(int64(len(d.log)))
+			what := fmt.Sprintf("%s, authenticated TO2 client in mode %s (credential reuse %v), messages %v, client result %v", k.Name, mode, reuse, d.log, err)
+			repl0 := map[string]any{"mode": mode, "reuse": reuse, "layer": "deviant-client"}
+			switch mode {
+			case "honest":
+				if err != nil {
+					r.Violation("honest-history-fails:TO2", what, repl0)
+				}
+				if want := map[bool]int{false: 1, true: 0}[reuse]; repl != want || calls == 0 {
+					r.Violation("honest-effects-missing", fmt.Sprintf("%s: %d voucher replacements (want %d), %d owner module calls", what, repl, want, calls), repl0)
+				}
+			case "skip-66", "skip-service-info", "skip-66-and-service-info":
+				if calls > 0 && mode != "skip-service-info" {
+					r.Violation("effect-without-prerequisite:module", fmt.Sprintf("%s: the owner module was invoked %d times although DeviceServiceInfoReady (66) never arrived", what, calls), repl0)
+				}
+				if repl > 0 {
+					r.Violation("effect-without-prerequisite:ReplaceVoucher", fmt.Sprintf("%s: the voucher was replaced although the service info phase was skipped", what), repl0)
+				}
+			case "skip-modules":
+				if repl > 0 {
+					r.Violation("effect-without-prerequisite:ReplaceVoucher:done-before-owner-modules-finished", fmt.Sprintf("%s: the voucher was replaced although the owner never reported IsDone (its module had not finished)", what), repl0)
+				}
+			default:
+				if againErr == nil && againType != 255 {
+					r.Violation("accepted-after-final-message", fmt.Sprintf("%s: a %d sent after Done2 was answered with %d", what, map[string]int{"done-twice": 70, "info-after-done": 68, "ready-after-done": 66, "prove-after-done": 64}[mode], againType), repl0)
+				}
+				if repl != replBefore || calls != callsBefore {
+					r.Violation("effect-after-final-message", fmt.Sprintf("%s: after Done2 the extra message caused %d voucher replacements and %d module calls", what, repl-replBefore, calls-callsBefore), repl0)
+				}
+			}
+			r.Distinct(fmt.Sprintf("deviant|%s|%v|err=%v|repl=%d|calls=%v", mode, reuse, err != nil, repl, calls > 0))
+			r.Sample(8, map[string]any{"layer": "deviant-client", "mode": mode, "reuse": reuse, "messages": d.log, "voucher_replacements": repl, "owner_module_calls": calls})
+		}
+	}
+}
+
+func countRepl(m *lab.MemStore) int {
+	n := 0
+	for _, e := range m.Journal {
+		if e.Kind == "ReplaceVoucher" {
+			n++
+		}
+	}
+	return n
+}
+
 func main() {
 	r = ev.Start("C08", "model_checking")
 	// donor material
@@ -467,7 +618,7 @@ func main() {
 	if !r.Quick() {
 		kinds = []string{"ec256", "rsa2048restr"}
 	}
-	r.Rule("a state is a request history on ONE server instance (real handler, all four responders, one journaling store); a transition is one real ServeHTTP call. Honest principals run DI, TO0, TO1, TO2 (with an owner module) in order; half-open sessions of every protocol exist besides them. Before EVERY honest request the explorer may inject one adversarial request from the menu {16 message types incl. response types and unknown types} x {replay of the genuine request of this run, genuine request of another device (thorough), crafted well-formed bodies such as Done with the public ProveDevice nonce, plaintext 66/68, SetHMAC, error messages naming each protocol / unknown previous types} x {no token, this session's, another session's of the same protocol, another protocol's, a finished session's, five damaged forms}. Deviation bound 1 is complete (thorough: bound 2 for the injection points of DI/TO0/TO1). Invariants on every history: every AddVoucher / SetRVBlob / ReplaceVoucher / module start has a witness (the prerequisite messages accepted in order under its token, the last being the exchange that caused it); requests with no / foreign-protocol / finished / damaged token are answered with an error, cause no effect and do not disturb the honest runs; after a final message, an error answer or a client error message the token is never accepted again and its session state is gone. states = histories, transitions = requests served.")
+	r.Rule("a state is a request history on ONE server instance (real handler, all four responders, one journaling store); a transition is one real ServeHTTP call. Honest principals run DI, TO0, TO1, TO2 (with an owner module) in order; half-open sessions of every protocol exist besides them. Before EVERY honest request the explorer may inject one adversarial request from the menu {16 message types incl. response types and unknown types} x {replay of the genuine request of this run, genuine request of another device (thorough), crafted well-formed bodies such as Done with the public ProveDevice nonce, plaintext 66/68, SetHMAC, error messages naming each protocol / unknown previous types} x {no token, this session's, another session's of the same protocol, another protocol's, a finished session's, five damaged forms}. Deviation bound 1 is complete (thorough: bound 2 for the injection points of DI/TO0/TO1). Invariants on every history: every AddVoucher / SetRVBlob / ReplaceVoucher / module start has a witness (the prerequisite messages accepted in order under its token, the last being the exchange that caused it); requests with no / foreign-protocol / finished / damaged token are answered with an error, cause no effect and do not disturb the honest runs; after a final message, an error answer or a client error message the token is never accepted again and its session state is gone. states = histories, transitions = requests served. Additional layer: the AUTHENTICATED TO2 client itself (real client, real tunnel) deviates from the order: skips 66, skips the whole service info phase, skips both, or sends 70 / 68 / 66 / 64 once more after Done2, with and without credential reuse; no module invocation or voucher replacement may happen without its prerequisite messages, nothing is accepted after the final message.")
 	for _, kn := range kinds {
 		k := keys.KindByName(kn)
 		var mu sync.Mutex
@@ -493,6 +644,9 @@ func main() {
 		}
 		r.Add("executions", int64(st.Executions))
 		r.Add("injection_points", int64(st.MaxDepth))
+	}
+	for _, kn := range kinds {
+		deviantClients(keys.KindByName(kn))
 	}
 	r.Traces.Add(r.States.Load())
 	r.Assume("memory store with effect journal (the SQLite token and session layer is explored by C18); the adversary's knowledge is what is public on the wire plus genuine traffic of another device")
